@@ -1148,3 +1148,63 @@ func ruleEFFdet(w *World, r *Report) {
 		r.Cond(len(bad) == 0, "EFF-det", "root:"+rt.fn, pos, fmt.Sprintf("%d functions reachable, none with a source of variation", len(set)), rt.fn+" is not a function of its input alone: "+strings.Join(bad, "; ")+" — the same text can give different tokens/chunks from run to run")
 	}
 }
+
+// ---------- GRD-verbatim: the text that is split is the text that was given ----------
+
+// ruleGRDverbatim: SplitText hands its input to the recursive splitter as it received it. Only whitespace trimming may
+// sit in between: anything else that rewrites the string (dropping invalid UTF-8, mapping runes, replacing substrings)
+// loses non-whitespace content before the first split is made.
+func ruleGRDverbatim(w *World, r *Report) {
+	r.Doc("GRD-verbatim", "RecursiveCharacterSplitter.SplitText passes its text parameter to recursiveSplit unchanged (whitespace trimming aside): no content-rewriting call sits between the input and the first split", 1)
+	fi := w.Func(ragPkg, "RecursiveCharacterSplitter.SplitText")
+	rs := w.FuncObj(ragPkg, "RecursiveCharacterSplitter.recursiveSplit")
+	if fi == nil || rs == nil {
+		r.Und("GRD-verbatim", "anchor:SplitText/recursiveSplit", "", "anchor lost")
+		return
+	}
+	fn := w.SSAFunc(fi.Obj)
+	calls := findInstrs(fn, callsTo(rs))
+	if len(calls) == 0 {
+		r.Und("GRD-verbatim", "SplitText:first-split", w.Pos(fi.Decl.Pos()), "SplitText no longer calls recursiveSplit (shape not recognised)")
+		return
+	}
+	whitespaceOnly := map[string]bool{"TrimSpace": true}
+	for i, c := range calls {
+		arg := c.(*ssa.Call).Call.Args[1] // receiver, text, separators
+		ok := true
+		why := ""
+		var walk func(v ssa.Value, depth int)
+		walk = func(v ssa.Value, depth int) {
+			if depth > 8 {
+				ok, why = false, "provenance too deep"
+				return
+			}
+			for _, leaf := range valueRoots(v) {
+				switch x := leaf.(type) {
+				case *ssa.Parameter:
+					if x.Parent() != fn || !isStringType(x.Type()) {
+						ok, why = false, "not the text parameter"
+					}
+				case *ssa.Call:
+					o := calleeObj(&x.Call)
+					if o != nil && o.Pkg() != nil && o.Pkg().Path() == "strings" && whitespaceOnly[o.Name()] && len(x.Call.Args) == 1 {
+						walk(x.Call.Args[0], depth+1)
+					} else if o != nil {
+						ok, why = false, "rewritten by "+o.Pkg().Name()+"."+o.Name()
+					} else {
+						ok, why = false, "rewritten by a dynamic call"
+					}
+				default:
+					ok, why = false, fmt.Sprintf("computed (%T)", leaf)
+				}
+			}
+		}
+		walk(arg, 0)
+		r.Cond(ok, "GRD-verbatim", fmt.Sprintf("SplitText:split#%d:input-verbatim", i+1), w.Pos(c.Pos()), "the text parameter reaches recursiveSplit unchanged (whitespace trimming aside)", "SplitText does not hand its input to the splitter as received ("+why+"): content that the rewriting call drops or changes — bytes that are not valid UTF-8, mapped runes, replaced substrings — is missing from every chunk")
+	}
+}
+
+func isStringType(t types.Type) bool {
+	b, ok := t.Underlying().(*types.Basic)
+	return ok && b.Info()&types.IsString != 0
+}
